@@ -292,6 +292,12 @@ class JokerSamples:
             The samples converted to an orbit object. The barycenter position
             and distance are set to arbitrary values.
         """
+        # samples of data taken without a reference epoch (t_ref=False) are
+        # measured from BMJD 0, like the data themselves
+        t_ref = self.t_ref
+        if t_ref is None:
+            t_ref = Time(0.0, format="mjd", scale="tcb")
+
         if "orbit" not in self._cache:
             self._cache["orbit"] = KeplerOrbit(
                 P=1 * u.yr,
@@ -300,7 +306,7 @@ class JokerSamples:
                 Omega=0 * u.deg,
                 i=90 * u.deg,
                 a=1 * u.au,
-                t0=self.t_ref,
+                t0=t_ref,
             )
 
         # all of this to avoid the __init__ of KeplerOrbit / KeplerElements
@@ -332,7 +338,7 @@ class JokerSamples:
         M0 = M0[index]
         trend_coeffs = [x[index] for x in trend_coeffs]
 
-        orbit.elements.t0 = self.t_ref
+        orbit.elements.t0 = t_ref
         orbit.elements._P = P
         orbit.elements._e = e * u.dimensionless_unscaled
         orbit.elements._a = a
@@ -340,7 +346,7 @@ class JokerSamples:
         orbit.elements._M0 = M0
         orbit.elements._Omega = kwargs.pop("Omega", 0 * u.deg)
         orbit.elements._i = kwargs.pop("i", 90 * u.deg)
-        orbit._vtrend = PolynomialRVTrend(trend_coeffs, t0=self.t_ref)
+        orbit._vtrend = PolynomialRVTrend(trend_coeffs, t0=t_ref)
         orbit._barycenter = kwargs.pop("barycenter", None)
 
         if kwargs:
